@@ -44,6 +44,7 @@ TABLE = [
     ('rawx12file:RawX12File.__init__ raise X12Error', 'DOC', 'not-X12 refusal on the three header tests'),
     ('x12file:X12Base._parse_segment raise X12Error', 'DOC', 'an ISA met during iteration that has not 16 elements'),
     ('x12n_document:x12n_document raise EngineError(<err_str>)', 'DOC', '"Map not found" at the GS and BHT lookups'),
+    ('x12n_document:x12n_document raise EngineError(Map not found', 'DOC', '"Map not found" at the GS and BHT lookups (message built in place)'),
     ('x12context:X12ContextReader.iter_segments raise EngineError(Map not found', 'DOC', '"Map not found" at the GS lookup'),
     ('x12context:X12ContextReader.iter_segments raise EngineError(<err_str>)', 'DOC', '"Map not found" at the BHT lookup'),
     ('map_if:load_map_file raise OSError', 'OUT', 'configured map_path does not exist'),
@@ -262,6 +263,13 @@ def _recv_is_segment(ctx, fn, q, recv, sid, facts):
             if f[0] == 'Eq' and f[1] == p and f[2] == sid:
                 if p != 'seg_id' or _seg_id_of(fn, recv):
                     return True, 'dominating test %s == %r' % (p, sid)
+    # (1b) membership in a set of ids of which every other member was excluded by a failed equality test
+    for p in ('%s.get_seg_id()' % recv, 'seg_id', '%s.seg_id' % recv):
+        for f in (facts or ()):
+            if f[0] == 'In' and f[1] == p and sid in f[2] and (p != 'seg_id' or _seg_id_of(fn, recv)):
+                excluded = {g_[2] for g_ in facts if g_[0] == 'Ne' and g_[1] == p}
+                if set(f[2]) - excluded == {sid}:
+                    return True, 'dominating tests: %s in %s and not %s' % (p, sorted(f[2]), sorted(excluded))
     # (2) segment built in this function from a literal starting with the id
     for s in ast.walk(fn):
         if isinstance(s, ast.Assign) and path_of(s.targets[0]) == recv and isinstance(s.value, ast.Call) and A.call_target(s.value)[1] == 'Segment' \
@@ -305,6 +313,8 @@ def _recv_is_segment(ctx, fn, q, recv, sid, facts):
         cls, cur = proto[sid]
         if q.startswith(cls + '.__init__') and recv in ('seg_data', 'self.seg_data'):
             return True, '%s is constructed by add_%s_loop for a %s segment only' % (cls, sid.lower(), sid)
+        if recv in ('errh.%s.seg_data' % cur, 'self.errh.%s.seg_data' % cur):
+            return True, 'segment stored in the %s node' % cls
         for s in ast.walk(fn):
             if isinstance(s, ast.Assign) and path_of(s.targets[0]) == recv and norm(s.value) in ('errh.%s.seg_data' % cur, 'self.errh.%s.seg_data' % cur):
                 # the last assignment before the use decides; accept when the literal ids used after each assignment agree
@@ -326,6 +336,36 @@ def _seg_id_of(fn, recv):
     return False
 
 
+def token_names(fn):
+    """local names of X12Reader.__iter__ that hold the tokenizer's token (the loop variable over self.raw and every
+    name that is only ever assigned such a name, possibly stripped)"""
+    toks = set()
+    for n in ast.walk(fn):
+        if isinstance(n, ast.For) and path_of(n.iter) == 'self.raw':
+            toks |= {x.id for x in ast.walk(n.target) if isinstance(x, ast.Name)}
+    if not toks:
+        raise AnalysisError('X12Reader.__iter__: loop over the tokenizer not found')
+    assigns = {}
+    for n in ast.walk(fn):
+        if isinstance(n, ast.Assign) and len(n.targets) == 1 and isinstance(n.targets[0], ast.Name):
+            assigns.setdefault(n.targets[0].id, []).append(n.value)
+
+    def from_tok(v):
+        if isinstance(v, ast.Name):
+            return v.id in toks
+        if isinstance(v, ast.Call) and isinstance(v.func, ast.Attribute) and v.func.attr in ('lstrip', 'strip', 'rstrip'):
+            return from_tok(v.func.value)
+        return False
+    changed = True
+    while changed:
+        changed = False
+        for nm, vals in assigns.items():
+            if nm not in toks and all(from_tok(v) for v in vals):
+                toks.add(nm)
+                changed = True
+    return toks
+
+
 # --------------------------------------------------------------------------- R2 implicit raisers
 def r2_implicit(ctx):
     km = KeyMaker()
@@ -338,11 +378,12 @@ def r2_implicit(ctx):
     g = ctx.cfg(fn)
     IN = must_facts(g)
     nb = 0
+    toks = token_names(fn)
     for nd in g.nodes:
         for x in g.walk_exprs(nd):
-            if isinstance(x, ast.Subscript) and path_of(x.value) == 'line' and not isinstance(x.slice, ast.Slice):
+            if isinstance(x, ast.Subscript) and isinstance(x.value, ast.Name) and x.value.id in toks and not isinstance(x.slice, ast.Slice):
                 nb += 1
-                ok = has(IN[nd.id], 'NonEmpty', 'line')
+                ok = has(IN[nd.id], 'NonEmpty', x.value.id)
                 yield Ob(km('(b) x12file:X12Reader.__iter__ %s' % norm(x)), ok, ctx.floc(fn, x),
                          '' if ok else 'index into the token without a non-empty guard: a segment consisting of blanks is empty after lstrip() and raises IndexError')
     if nb < 1:
@@ -649,9 +690,17 @@ def r3_refusal_paths(ctx):
     ok = len(raises) == 3 and all('X12Error' in norm(r.ast) for r in raises)
     yield Ob('rawx12file:RawX12File.__init__ three X12Error refusals', ok, ctx.floc(fn), '' if ok else '%d raises' % len(raises))
     # the delimiter reads come after the length test (indexing a short header would raise IndexError)
-    lentests = [n for n in g.nodes if n.kind == 'test' and 'len(line)' in norm(n.ast) and 'ISA_LEN' in norm(n.ast) and isinstance(n.stmt, ast.If)]
-    idx = [n for n in g.nodes if n.kind == 'stmt' and isinstance(n.ast, ast.Assign) and any(isinstance(x, ast.Subscript) and path_of(x.value) == 'line'
-                                                                                           and not isinstance(x.slice, ast.Slice) for x in ast.walk(n.ast.value))]
+    lentests = []
+    hv = set()
+    for n in g.nodes:
+        if n.kind == 'test' and isinstance(n.stmt, ast.If) and isinstance(n.ast, ast.Compare) and 'ISA_LEN' in norm(n.ast):
+            for side in [n.ast.left] + list(n.ast.comparators):
+                if isinstance(side, ast.Call) and path_of(side.func) == 'len' and side.args and isinstance(side.args[0], ast.Name):
+                    lentests.append(n)
+                    hv.add(side.args[0].id)
+    idx = [n for n in g.nodes if n.kind == 'stmt' and isinstance(n.ast, ast.Assign) and any(isinstance(x, ast.Subscript) and isinstance(x.value, ast.Name)
+                                                                                           and x.value.id in hv and not isinstance(x.slice, ast.Slice)
+                                                                                           for x in ast.walk(n.ast.value))]
     ok = bool(lentests) and bool(idx) and all(any(t.id in dom[i.id] for t in lentests) for i in idx)
     yield Ob('rawx12file:RawX12File.__init__ header is indexed only after the length test', ok, ctx.floc(fn), '' if ok else 'a header character is read before the length is known')
     fn = ctx.func('x12n_document', 'x12n_document')
@@ -672,8 +721,8 @@ def r3_refusal_paths(ctx):
 
 
 RULES = [
-    Rule('C07.R1', 'explicit raises escaping the entry points are all classified (documented / data-discharged / guarded)', r1_explicit_raises, floor=45),
-    Rule('C07.R1b', 'segment-qualified designator literals are used on segments of that id', r1b_designators, floor=60),
-    Rule('C07.R2', 'implicit raisers: stack, token index, int(), optional current nodes, child lookups, self-calls, unbound locals', r2_implicit, floor=40),
-    Rule('C07.R3', 'the documented refusal paths exist and visitor/callback fences are in place', r3_refusal_paths, floor=6),
+    Rule('C07.R1', 'explicit raises escaping the entry points are all classified (documented / data-discharged / guarded)', r1_explicit_raises, floor=33),
+    Rule('C07.R1b', 'segment-qualified designator literals are used on segments of that id', r1b_designators, floor=45),
+    Rule('C07.R2', 'implicit raisers: stack, token index, int(), optional current nodes, child lookups, self-calls, unbound locals', r2_implicit, floor=30),
+    Rule('C07.R3', 'the documented refusal paths exist and visitor/callback fences are in place', r3_refusal_paths, floor=4),
 ]
